@@ -1,6 +1,7 @@
 import Driver.Common
 import PanqecVerif.Model.UnionFind
 import PanqecVerif.Model.UnionFindWF
+import PanqecVerif.Model.Lattices.Toric2DCode
 open Panqec
 
 /-! ops for `Model/UnionFind.lean` (C05: internals of the union-find decoder).
@@ -10,6 +11,10 @@ open Panqec
                           (same text as `harness/uf_trace.py` builds from the running implementation)
 
 `uf.class  H`           → `closed` | `graphlike` | `none` (the predicates `closedGraph`, `graphLike`)
+`uf.toric  Lx Ly z|x`   → `<class> <matrix>`: the sector matrix `Hz` / `Hx` (`Model/Code.lean`) of the
+                          parity-check matrix assembled from the all-sizes lattice model
+                          `Model/Lattices/Toric2DCode.lean` — the subject of
+                          `Properties/C05UnionFindToric.lean` — and its class
 
 `sched`: the recorded set iteration orders, `;`-separated lists of `,`-separated integers
 (`e` = empty list, `-` = no schedule). -/
@@ -94,6 +99,16 @@ def handleUnionFind : List String → Option String
     -- which hypothesis of the theorems in `Properties/C05UnionFind.lean` the matrix satisfies
     let H := parseStack h
     some (if UF.closedGraph H then "closed" else if UF.graphLike H then "graphlike" else "none")
+  | ["uf.toric", lx, ly, sec] =>
+    match lx.toNat?, ly.toNat? with
+    | some Lx, some Ly =>
+      match stabilizerMatrix (Toric2DCode.lattice Lx Ly).toCodeData with
+      | none => some "ERR key"
+      | some M =>
+        let H := if sec == "z" then Hz M else Hx M
+        some ((if UF.closedGraph H then "closed" else if UF.graphLike H then "graphlike" else "none")
+          ++ " " ++ showStack H)
+    | _, _ => none
   | _ => none
 
 end Drv
